@@ -438,7 +438,27 @@ def _strategy_base():
                 p = self.position
                 TRACE.append(('liq', self.symbol, now(), float(p.liquidation_price), float(p.bankruptcy_price), p.entry_price, p.qty))
 
+        def _react(self, d, site):
+            """market orders submitted from inside a fill handler: {'liquidate': True} | {'reenter': [[qty, offset]]} (once per trade)"""
+            if not d:
+                return
+            if d.get('liquidate'):
+                self.liquidate()
+                if self.spec.get('log_declare'):
+                    which = 'tp' if self.position.pnl > 0 else 'sl'
+                    self._declared(which, [(abs(self.position.qty), self.price)], 'liquidate')
+            elif d.get('reenter') and not getattr(self, '_reentered', False):
+                self._reentered = True
+                s = self.spec
+                legs = [(q * s['unit'], self._px(self.price, off)) for q, off in d['reenter']]
+                if s['side'] == 'long':
+                    self.buy = legs if len(legs) > 1 else legs[0]
+                else:
+                    self.sell = legs if len(legs) > 1 else legs[0]
+                self._declared('entry', legs, site)
+
         def on_open_position(self, order):
+            self._reentered = False
             self._log('on_open_position', getattr(order, '_vf_oid', -1))
             self._log_liq()
             self._apply_exits(self.spec.get('on_open'), self.position.entry_price, 'on_open_position')
@@ -454,6 +474,7 @@ def _strategy_base():
             self._log('on_reduced_position', getattr(order, '_vf_oid', -1))
             self._log_liq()
             self._apply_exits(self.spec.get('on_reduced'), self.position.entry_price, 'on_reduced_position')
+            self._react(self.spec.get('on_reduced'), 'on_reduced_position')
 
         def on_close_position(self, order):
             self._log('on_close_position', getattr(order, '_vf_oid', -1))
